@@ -1,5 +1,6 @@
 """C18 — varz: the real VarzReceiver / VarzAggregator (and the real MessageDispatcher over a mock
 sink) driven with freshly constructed Source objects; exact integer / Fraction arithmetic."""
+import zlib
 from fractions import Fraction
 
 from lib import vfmt
@@ -286,7 +287,29 @@ def run_script(script):
     try:
         if not dispatch:
             used, keys, nsamp, first = {}, {}, {}, {}
-            for op in script['ops']:
+            # the metrics as client code declares them: a VarzBase subclass (the metaclass registers the names and
+            # creates the source-less metric objects); updates go through the receiver directly, through the
+            # class-level (source-less) metric, or through a metric bound to the source — chosen per operation
+            mcls = {'gauge': varz.Gauge, 'rate': varz.Rate, 'aggTimer': varz.AggregateTimer,
+                    'counter': varz.Counter, 'avgTimer': varz.AverageTimer, 'avgRate': varz.AverageRate}
+            VZ = varz.VarzMeta('VerifVarz', (varz.VarzBase,),
+                               {'_VARZ_BASE_NAME': 'verif', '_VARZ': {'m%d' % m: mcls[t] for m, t in mtype.items()}})
+
+            def update(idx, m, source, value, default_ok):
+                via = (zlib.crc32(repr((idx, m, value)).encode())) % 3
+                if via == 0:
+                    return None
+                tags.add('via-class-metric' if via == 1 else 'via-bound-metric')
+                if value == 0:
+                    tags.add('zero-through-metric-object')
+                metric = getattr(VZ, 'm%d' % m) if via == 1 else getattr(VZ(source), 'm%d' % m)
+                args = () if (default_ok and value == 1 and idx % 2) else (value,)
+                if via == 1:
+                    metric(source, *args)
+                else:
+                    metric(*args)
+                return True
+            for opi, op in enumerate(script['ops']):
                 k = op[0]
                 if k == 'agg':
                     now = op[2] if len(op) > 2 else 0
@@ -323,16 +346,19 @@ def run_script(script):
                     raise ValueError(k)
                 try:
                     if k == 'inc':
-                        VarzReceiver.IncrementVarz(mk(src), names[m], op[3])
+                        if not update(opi, m, mk(src), op[3], True):
+                            VarzReceiver.IncrementVarz(mk(src), names[m], op[3])
                         if op[3] < 0:
                             tags.add('negative')
                     elif k == 'set':
-                        VarzReceiver.SetVarz(mk(src), names[m], op[3])
+                        if not update(opi, m, mk(src), op[3], False):
+                            VarzReceiver.SetVarz(mk(src), names[m], op[3])
                         tags.add('gauge')
                     else:
                         draw.keep = bool(op[4])
                         clock.now = op[5]
-                        VarzReceiver.RecordPercentileSample(mk(src), names[m], op[3])
+                        if not update(opi, m, mk(src), op[3], False):
+                            VarzReceiver.RecordPercentileSample(mk(src), names[m], op[3])
                         nsamp[(m, t)] = nsamp.get((m, t), 0) + 1
                         first.setdefault((m, t), op[5])
                         if nsamp[(m, t)] > cap:
